@@ -23,6 +23,7 @@ type verifStream struct {
 	data  []byte
 	pos   int
 	reads int
+	full  bool // hand out as much as fits (used where chunking is not the subject)
 }
 
 func (s *verifStream) Read(p []byte) (int, error) {
@@ -37,9 +38,12 @@ func (s *verifStream) Read(p []byte) (int, error) {
 	if len(p) < lim {
 		lim = len(p)
 	}
-	k := verif_anyInt("chunk")
-	verif_assume(k >= 1)
-	verif_assume(k <= lim)
+	k := lim
+	if !s.full {
+		k = verif_anyInt("chunk")
+		verif_assume(k >= 1)
+		verif_assume(k <= lim)
+	}
 	copy(p[:k], s.data[s.pos:s.pos+k])
 	s.pos += k
 	s.reads++
@@ -211,6 +215,27 @@ func VerifC18Arbitrary(kind, n, maxSize int) {
 		pos = start + ln
 	}
 	verif_reach("C18.arb.ok")
+}
+
+// VerifC18LongHeader: streams long enough to hold a maximal (10-byte) varint length prefix, i.e. every 64-bit length
+// including those that are negative as an int: one frame, differential against the reference decoder, no panic.
+func VerifC18LongHeader(n, maxSize int) {
+	s := &verifStream{data: verif_anyVec("stream", n), full: true}
+	r := verifMkReader(0, s, maxSize)
+	verif_resetAlloc()
+	o := &verifMsg{}
+	err := r.ReadMsg(o)
+	start, ln, ok := verifRefFrame(0, s.data, 0, maxSize)
+	verif_assert(verif_maxAlloc() <= maxSize, "C18.hdr: no allocation beyond the limit")
+	if !ok {
+		verif_assert(err != nil, "C18.hdr: malformed/truncated/oversized frame is an error")
+		verif_assert(!o.set, "C18.hdr: nothing delivered for a bad frame")
+		verif_reach("C18.hdr.err")
+		return
+	}
+	verif_assert(err == nil, "C18.hdr: well-formed frame accepted")
+	verif_assert(o.set && verifEqBytes(o.body, s.data[start:start+ln]), "C18.hdr: delivered body is the framed bytes")
+	verif_reach("C18.hdr.ok")
 }
 
 // VerifC18Witness: vacuity guard.
